@@ -201,7 +201,7 @@ def run(ctx: core.Ctx) -> int:
         extra.append({"tid": len(cases) + j + 1, "toks": toks, "form": form, "vis": vis})
     cases += extra
     # 3. replay into the real code
-    events = core.pmap(replay_case, cases)
+    events = ctx.pmap(replay_case, cases)
     for ev in events[:: max(1, len(events) // 6)][:6]:
         ctx.samples.append({"toks": ev["toks"], "form": ev["form"], "text": ev["text"], "obs": ev["obs"]})
     for ev in events:
